@@ -12,13 +12,17 @@
     * the string writer never panics on the events of the reader or of the traversal;
     * the hydrogen-count queries cannot overflow: the result always fits (≤ 9) whatever the degree.
     * the graph builder never panics on the events of the reader or of the traversal.
+    * the traversal of ANY adjacency list: its internal `expect("chain head")` and `atoms` lookups are
+      unreachable and the loop terminates (the model's fuel is never exhausted) — the only panic the
+      traversal can reach is the exhausted ring-number pool (`walk_only_panics_on_rnum`, D17 below).
   Not yet theorems (covered by the correspondence harness running the real code under catch_unwind):
-    * Trace on reader events, the traversal's internal `expect("chain head")`;
+    * Trace on reader events;
   Known findings (not provable because false): more than 99 simultaneously open ring closures
   (`expect("rnum")`, D17) and stack exhaustion on deeply nested parentheses (D18).
 -/
 import Purr.Props.C08
 import Purr.Props.C17
+import Purr.Lemmas.WalkPanicL
 namespace Purr.C06
 open Purr
 
@@ -47,6 +51,11 @@ theorem walk_into_builder_no_panic (g : Graph) : (build? (walk g).1).isSome := C
 
 /-- traversing any adjacency list whatsoever into the string writer -/
 theorem walk_into_writer_no_panic (g : Graph) : (write? (walk g).1).isSome := C08.walker_never_panics_writer g
+
+/-- the traversal of ANY adjacency list (well-formed or garbage): every internal panic site is unreachable and
+    the loop terminates; the one panic that remains is the ring-number pool running out (known finding D17) -/
+theorem walk_only_panics_on_rnum (g : Graph) (site : String) (h : (walk g).2 = .panic site) :
+    site = "join_pool.rs:rnum" := walk_panic_only_rnum g site h
 
 /-- the hydrogen-count queries return a value that fits a byte with room to spare, for any degree -/
 theorem hydrogens_no_overflow (a : Atom) : a.subvalence ≤ 6 ∧ a.suppressedHydrogens ≤ 9 :=
